@@ -20,6 +20,7 @@
 #include <shark/Models/Trees/LCTree.h>
 #include <shark/Models/Trees/KHCTree.h>
 #include <shark/Models/Kernels/LinearKernel.h>
+#include <shark/Models/Kernels/PolynomialKernel.h>
 #include <shark/Algorithms/NearestNeighbors/AbstractNearestNeighbors.h>
 #include <shark/Algorithms/NearestNeighbors/SimpleNearestNeighbors.h>
 #include <shark/Data/DataView.h>
@@ -46,9 +47,17 @@ typedef IterativeNNQuery<View> Query;
 static std::vector<std::vector<long long> > g_pts;   // integer points
 static std::vector<unsigned int> g_labels;
 static std::size_t g_dim = 0;
+static std::size_t g_batchSize = 0;                  // batch size of the data set (0: 3 if n > 5, else one batch)
 static Data<RealVector> g_data;
 static std::unique_ptr<View> g_view;
 static LinearKernel<RealVector> g_kernel;
+// a genuinely non-Euclidean, exactly computable (integer valued on integer points) kernel metric:
+// k(x,y) = (<x,y> + 1)^2, feature distance k(x,x) - 2 k(x,y) + k(y,y)   (tree kind `khcp`)
+static PolynomialKernel<RealVector> g_poly(2, 1.0, false);
+static AbstractKernelFunction<RealVector> const* g_metric = &g_kernel;   // metric of the current tree
+static bool g_polyMetric = false;
+static unsigned g_bucket = 1;                        // normalised maxBucketSize of the current tree
+static std::vector<std::size_t> g_leafFirst;         // point index -> index(0) of the leaf that holds it
 static std::unique_ptr<Tree> g_tree;
 static std::string g_kind;
 static std::vector<Tree const*> g_pre;               // nodes in preorder
@@ -59,7 +68,14 @@ static RealVector toVec(std::vector<long long> const& p){
 	for(std::size_t i = 0; i != p.size(); ++i) v(i) = (double)p[i];
 	return v;
 }
+static long long polyK(std::vector<long long> const& a, std::vector<long long> const& b){
+	long long s = 1;
+	for(std::size_t i = 0; i != a.size(); ++i) s += a[i]*b[i];
+	return s*s;
+}
+// exact squared distance in the metric of the current tree (Euclidean, or the feature distance of g_poly)
 static long long d2int(std::vector<long long> const& a, std::vector<long long> const& b){
+	if(g_polyMetric) return polyK(a,a) - 2*polyK(a,b) + polyK(b,b);
 	long long s = 0;
 	for(std::size_t i = 0; i != a.size(); ++i) s += (a[i]-b[i])*(a[i]-b[i]);
 	return s;
@@ -118,11 +134,71 @@ static int checkSplits(){
 	}
 	return worst;
 }
-static std::string failKey(std::string const& what){
+// Classification of an oracle failure.  K1 (known finding) is claimed ONLY for the listed defect:
+// the tree was built with a bucket size > 1, has a leaf with two distinct points, AND the observed
+// results are exactly what the defect predicts (`k1Explains`: every check passes once the true
+// distance of a point is replaced by the distance of the FIRST point of its leaf - the search is an
+// exact search for those pseudo distances).  Everything else is a fresh `wrong-result`.
+static std::string failKey(std::string const& what, bool k1Explains, bool kh1Explains){
 	if(g_t1 == 2) return "T1:threshold-not-separating:" + g_kind + ":" + what;
 	if(treeHasEmptyLeaf()) return "L1:empty-leaf:" + g_kind + ":" + what;
-	if(treeHasDistinctLeaf()) return "K1:leaf-with-distinct-points:" + g_kind + ":" + what;
+	// KH1 (listed finding): KHCTree does not override BinaryTree::kernel(), so IterativeNNQuery measures the
+	// points with the Euclidean distance although the tree (cells, bounds) lives in the kernel's feature space
+	if(kh1Explains && g_polyMetric && g_tree && g_tree->kernel() == NULL) return "KH1:khctree-kernel-not-exposed:" + what;
+	if(treeHasDistinctLeaf()){
+		if(g_bucket <= 1) return "wrong-result:" + g_kind + ":distinct-leaf-at-bucket-1:" + what;
+		if(k1Explains) return "K1:leaf-with-distinct-points:" + g_kind + ":bucket>1:" + what;
+		return "wrong-result:" + g_kind + ":beyond-K1:" + what;
+	}
 	return "wrong-result:" + g_kind + ":" + what;
+}
+static long long euclid2(std::vector<long long> const& a, std::vector<long long> const& b){
+	long long s = 0;
+	for(std::size_t i = 0; i != a.size(); ++i) s += (a[i]-b[i])*(a[i]-b[i]);
+	return s;
+}
+static bool g_perm = true;
+static bool k1Possible(){ return g_perm && g_bucket > 1 && g_t1 != 2 && !treeHasEmptyLeaf() && treeHasDistinctLeaf(); }
+
+// reference squared distances of all points to q: the true ones, or (pseudo = true) the distance of the
+// first point of the point's leaf - what the listed defect K1 reports
+static std::vector<long long> refDistances(std::vector<long long> const& q, bool pseudo){
+	std::size_t n = g_pts.size();
+	std::vector<long long> d(n);
+	for(std::size_t i = 0; i != n; ++i) d[i] = d2int(g_pts[pseudo ? g_leafFirst[i] : i], q);
+	return d;
+}
+// a full enumeration (n calls of next()): (squared distance as text, index).  "" = fine
+static std::string checkEnumeration(std::vector<std::pair<std::string, std::size_t> > const& res, std::vector<long long> const& ref){
+	std::size_t n = ref.size();
+	std::vector<long long> sorted(ref); std::sort(sorted.begin(), sorted.end());
+	std::vector<char> seen(n, 0);
+	long long prev = -1;
+	for(std::size_t i = 0; i != res.size(); ++i){
+		std::size_t ix = res[i].second;
+		std::ostringstream si; si << i;
+		if(ix >= n) return "index-out-of-range@" + si.str();
+		if(seen[ix]) return "point-returned-twice";
+		if(res[i].first != std::to_string(ref[ix])) return "distance-not-true";
+		if(ref[ix] < prev) return "order-decreasing";
+		if(ref[ix] != sorted[i]) return "not-ith-nearest";
+		seen[ix] = 1; prev = ref[ix];
+	}
+	return "";
+}
+// a k-neighbour list (squared distance as text, label) against exhaustive search by definition:
+// the i-th distance is the i-th smallest reference distance, and no (distance,label) combination
+// is reported more often than data points with that distance and label exist (any valid resolution
+// of ties at the k-th distance passes, a point reported twice / a foreign label does not).
+static std::string checkNeighbours(std::vector<std::pair<std::string, unsigned> > const& res, std::vector<long long> const& ref){
+	std::vector<long long> sorted(ref); std::sort(sorted.begin(), sorted.end());
+	std::map<std::pair<std::string, unsigned>, long> avail;
+	for(std::size_t i = 0; i != ref.size(); ++i) avail[std::make_pair(std::to_string(ref[i]), g_labels[i])]++;
+	for(std::size_t i = 0; i != res.size(); ++i)
+		if(i >= sorted.size() || res[i].first != std::to_string(sorted[i])) return "knn-distance";
+	for(std::size_t i = 0; i != res.size(); ++i)
+		if(--avail[res[i]] < 0) return "knn-label";
+	return "";
 }
 
 struct KDProbe: public KDTree<RealVector>{
@@ -189,7 +265,13 @@ int main(int argc, char** argv){
 		if(t.empty()){ std::cout << "\n"; if(annot.is_open()) annot << "\n"; continue; }
 		std::string const& op = t[0];
 		try{
-		if(op == "data" && t.size() >= 3){
+		if(op == "batch" && t.size() == 2){
+			// batch size of the Data objects created by the following `data` ops (DataView lookups,
+			// numberOfBatches() of the exhaustive search)
+			g_batchSize = std::stoul(t[1]);
+			out << "ok";
+		}
+		else if(op == "data" && t.size() >= 3){
 			g_dim = std::stoul(t[1]); std::size_t n = std::stoul(t[2]);
 			if(t.size() != 3 + g_dim*n || n == 0 || g_dim == 0){ out << "bad-op"; }
 			else{
@@ -202,7 +284,7 @@ int main(int argc, char** argv){
 				}
 				g_labels.assign(n, 0);
 				// several batches so that DataView / batch handling is exercised too
-				g_data = createDataFromRange(vecs, n > 5 ? 3 : 256);
+				g_data = createDataFromRange(vecs, g_batchSize ? g_batchSize : (n > 5 ? 3 : 256));
 				g_view.reset(new View(g_data));
 				out << "ok n=" << n << " d=" << g_dim;
 			}
@@ -215,10 +297,14 @@ int main(int argc, char** argv){
 			g_kind = t[1];
 			unsigned maxDepth = (unsigned)std::stoul(t[2]), bucket = (unsigned)std::stoul(t[3]);
 			TreeConstruction tc(maxDepth, bucket);
-			g_tree.reset(); g_pre.clear(); g_id.clear();
+			g_tree.reset(); g_pre.clear(); g_id.clear(); g_leafFirst.clear();
+			g_bucket = tc.maxBucketSize();
+			g_polyMetric = g_kind == "khcp";
+			g_metric = g_polyMetric ? static_cast<AbstractKernelFunction<RealVector> const*>(&g_poly) : &g_kernel;
 			if(g_kind == "kd") g_tree.reset(new KDTree<RealVector>(g_data, tc));
 			else if(g_kind == "lc") g_tree.reset(new LCTree<RealVector>(g_data, tc));
 			else if(g_kind == "khc") g_tree.reset(new KHCTree<View>(*g_view, &g_kernel, tc));
+			else if(g_kind == "khcp") g_tree.reset(new KHCTree<View>(*g_view, &g_poly, tc));
 			else { out << "bad-op"; }
 			if(g_tree){
 				preorder(g_tree.get());
@@ -244,6 +330,12 @@ int main(int argc, char** argv){
 				for(std::size_t i = 0; perm && i != all.size(); ++i) perm = all[i] == i;
 				out << "tree " << canonTree(g_tree.get()) << " nodes=" << g_tree->nodes() << " perm=" << (perm ? 1 : 0);
 				if(!perm) out << " !oracle index-list-not-a-permutation:" << g_kind;
+				g_perm = perm;
+				g_leafFirst.assign(g_pts.size(), 0);
+				for(Tree const* nd: g_pre) if(nd->isLeaf())
+					for(std::size_t i = 0; i != nd->size(); ++i) if(nd->index(i) < g_pts.size()) g_leafFirst[nd->index(i)] = nd->index(0);
+				// with bucket size 1 (the documented precondition of IterativeNNQuery) a leaf may only hold copies of ONE point
+				if(g_bucket <= 1 && treeHasDistinctLeaf()) out << " !oracle wrong-result:" << g_kind << ":distinct-leaf-at-bucket-1:build";
 				if(treeHasEmptyLeaf()) out << " !oracle L1:empty-leaf:" << g_kind << ":build";
 				g_t1 = checkSplits();
 				if(g_t1 == 2) out << " !oracle T1:threshold-not-separating:" << g_kind << ":build";
@@ -258,59 +350,75 @@ int main(int argc, char** argv){
 			for(Tree const* nd: g_pre)
 				ann << " " << vh::exactDouble(nd->squaredDistanceLowerBound(qv)) << " " << (nd->hasChildren() && nd->isLeft(qv) ? 1 : 0);
 			std::size_t n = g_pts.size();
-			// brute force (independent oracle)
-			std::vector<long long> bf(n);
-			for(std::size_t i = 0; i != n; ++i) bf[i] = d2int(g_pts[i], q);
-			std::vector<long long> sortedBf(bf); std::sort(sortedBf.begin(), sortedBf.end());
 			Query query(g_tree.get(), *g_view, qv);
 			out << "init " << stateStr(query);
-			std::string bad;
-			std::vector<char> seen(n, 0);
-			double prev = -1;
+			std::vector<std::pair<std::string, std::size_t> > res;
 			for(std::size_t i = 0; i != n; ++i){
 				Query::result_type r = query.next();
 				std::string D = sqOfReported(r.first);
 				out << " ; " << D << " " << r.second << " " << stateStr(query);
-				if(!bad.empty()) continue;
-				std::ostringstream si; si << i;
-				if(r.second >= n) bad = "index-out-of-range@" + si.str();
-				else if(seen[r.second]) bad = "point-returned-twice";
-				else if(D != std::to_string(bf[r.second])) bad = "distance-not-true";
-				else if(r.first < prev) bad = "order-decreasing";
-				else if(bf[r.second] != sortedBf[i]) bad = "not-ith-nearest";
-				if(r.second < n) seen[r.second] = 1;
-				prev = r.first;
+				res.push_back(std::make_pair(D, r.second));
 			}
-			if(!bad.empty()) out << " !oracle " << failKey(bad);
+			// brute force (independent oracle)
+			std::string bad = checkEnumeration(res, refDistances(q, false));
+			if(!bad.empty()){
+				// KH1: every reported value is the EUCLIDEAN distance of (the first point of the leaf of) the reported point
+				bool kh1 = g_perm;
+				for(std::size_t i = 0; kh1 && i != res.size(); ++i)
+					kh1 = res[i].second < n && res[i].first == std::to_string(euclid2(g_pts[g_leafFirst[res[i].second]], q));
+				out << " !oracle " << failKey(bad, k1Possible() && checkEnumeration(res, refDistances(q, true)).empty(), kh1);
+			}
 		}
-		else if((op == "knn" || op == "model") && t.size() == 3 + g_dim && g_tree){
+		else if((op == "knn" || op == "model") && t.size() >= 3 + g_dim && (t.size() - 3) % g_dim == 0 && g_tree){
+			// one call of getNeighbors / eval on a BATCH of m >= 1 query points (m = number of coordinate groups);
+			// the observations of the patterns are joined by " / "
 			std::size_t k = std::stoul(t[1]); int weighted = std::stoi(t[2]);
 			std::size_t n = g_pts.size();
-			std::vector<long long> q(g_dim);
-			for(std::size_t d = 0; d != g_dim; ++d) q[d] = std::stoll(t[3+d]);
-			RealMatrix batch(1, g_dim); for(std::size_t d = 0; d != g_dim; ++d) batch(0,d) = (double)q[d];
-			ann << " |";
-			{ RealVector qv = toVec(q);
-			  for(Tree const* nd: g_pre)
-				ann << " " << vh::exactDouble(nd->squaredDistanceLowerBound(qv)) << " " << (nd->hasChildren() && nd->isLeft(qv) ? 1 : 0); }
-			Data<unsigned int> lab = createDataFromRange(g_labels, n > 5 ? 3 : 256);
+			std::size_t m = (t.size() - 3) / g_dim;
+			std::vector<std::vector<long long> > qs(m, std::vector<long long>(g_dim));
+			RealMatrix batch(m, g_dim);
+			for(std::size_t p = 0; p != m; ++p){
+				for(std::size_t d = 0; d != g_dim; ++d){ qs[p][d] = std::stoll(t[3 + p*g_dim + d]); batch(p,d) = (double)qs[p][d]; }
+				ann << " |";
+				RealVector qv = toVec(qs[p]);
+				for(Tree const* nd: g_pre)
+					ann << " " << vh::exactDouble(nd->squaredDistanceLowerBound(qv)) << " " << (nd->hasChildren() && nd->isLeft(qv) ? 1 : 0);
+			}
+			Data<unsigned int> lab = createDataFromRange(g_labels, g_batchSize ? g_batchSize : (n > 5 ? 3 : 256));
 			LabeledData<RealVector, unsigned int> ds(g_data, lab);
 			TreeNearestNeighbors<RealVector, unsigned int> tnn(ds, g_tree.get());
-			SimpleNearestNeighbors<RealVector, unsigned int> snn(ds, &g_kernel);
+			SimpleNearestNeighbors<RealVector, unsigned int> snn(ds, g_metric);
+			typedef AbstractNearestNeighbors<RealVector, unsigned int>::DistancePair DP;
+			std::vector<DP> a, b;
+			UIntVector ot, os2; RealMatrix st;
+			if(op == "knn"){ a = tnn.getNeighbors(batch, k); b = snn.getNeighbors(batch, k); }
+			else{
+				typedef NearestNeighborModel<RealVector, unsigned int> M;
+				M mt(&tnn, (unsigned)k), ms(&snn, (unsigned)k);
+				mt.setDistanceWeightType(weighted ? M::ONE_OVER_DISTANCE : M::UNIFORM);
+				ms.setDistanceWeightType(weighted ? M::ONE_OVER_DISTANCE : M::UNIFORM);
+				mt.eval(batch, ot); ms.eval(batch, os2);
+				mt.decisionFunction().eval(batch, st);
+			}
+			std::vector<std::string> oracle;
+			for(std::size_t p = 0; p != m; ++p){
+			std::vector<long long> const& q = qs[p];
+			if(p) out << " / ";
 			// brute force
+			std::vector<long long> refTrue = refDistances(q, false);
 			std::vector<std::pair<long long, unsigned> > bf(n);
-			for(std::size_t i = 0; i != n; ++i) bf[i] = std::make_pair(d2int(g_pts[i], q), g_labels[i]);
+			for(std::size_t i = 0; i != n; ++i) bf[i] = std::make_pair(refTrue[i], g_labels[i]);
 			std::stable_sort(bf.begin(), bf.end(), [](std::pair<long long,unsigned> const& a, std::pair<long long,unsigned> const& b){ return a.first < b.first; });
 			if(op == "knn"){
-				typedef AbstractNearestNeighbors<RealVector, unsigned int>::DistancePair DP;
-				std::vector<DP> a = tnn.getNeighbors(batch, k), b = snn.getNeighbors(batch, k);
-				std::string bad;
+				if(a.size() != k*m || b.size() != k*m){ out << "wrong-size"; oracle.push_back("wrong-result:" + g_kind + ":knn-result-size"); continue; }
+				std::vector<std::pair<std::string, unsigned> > tl, sl;
 				out << "tree";
 				for(std::size_t i = 0; i != k; ++i){
-					std::string D = sqOfReported(a[i].key);
-					out << " " << D << ":" << a[i].value;
-					if(bad.empty() && D != std::to_string(bf[i].first)) bad = "knn-distance";
+					std::string D = sqOfReported(a[i+p*k].key);
+					out << " " << D << ":" << a[i+p*k].value;
+					tl.push_back(std::make_pair(D, a[i+p*k].value));
 				}
+				std::string bad = checkNeighbours(tl, refTrue);
 				// exhaustive-search back-end: canonical form = squared distances in order +
 				// sorted labels strictly inside the k-th distance.  The property wants the SAME
 				// distances from both back-ends; a key that equals the squared distance where the
@@ -319,63 +427,86 @@ int main(int argc, char** argv){
 				std::vector<unsigned> inner;
 				std::string bad2;
 				for(std::size_t i = 0; i != k; ++i){
+					DP const& bi = b[i+p*k];
 					double sq = (double)bf[i].first, rt = std::sqrt(sq);
-					if(b[i].key == rt){ out << " " << bf[i].first; if(bf[i].first < bf[k-1].first) inner.push_back(b[i].value); }
-					else if(b[i].key == sq){
+					if(bi.key == rt){ out << " " << bf[i].first; if(bf[i].first < bf[k-1].first) inner.push_back(bi.value); }
+					else if(bi.key == sq){
 						out << " " << bf[i].first;
-						if(bf[i].first < bf[k-1].first) inner.push_back(b[i].value);
+						if(bf[i].first < bf[k-1].first) inner.push_back(bi.value);
 						if(bad2.empty()) bad2 = "S1:simple-backend-reports-squared-distance";
 					}
-					else{ out << " ?" << vh::exactDouble(b[i].key); if(bad2.empty() || bad2[0] == 'S') bad2 = "wrong-result:simple:distance"; }
+					else{ out << " ?" << vh::exactDouble(bi.key); if(bad2.empty() || bad2[0] == 'S') bad2 = "wrong-result:simple:distance"; }
+					sl.push_back(std::make_pair(std::to_string(bf[i].first), bi.value));
 				}
 				std::sort(inner.begin(), inner.end());
 				out << " inner";
 				for(unsigned l: inner) out << " " << l;
-				if(!bad.empty()) out << " !oracle " << failKey(bad);
-				if(!bad2.empty()) out << " !oracle " << bad2;
-			}else{
-				NearestNeighborModel<RealVector, unsigned int> mt(&tnn, (unsigned)k), ms(&snn, (unsigned)k);
-				typedef NearestNeighborModel<RealVector, unsigned int> M;
-				mt.setDistanceWeightType(weighted ? M::ONE_OVER_DISTANCE : M::UNIFORM);
-				ms.setDistanceWeightType(weighted ? M::ONE_OVER_DISTANCE : M::UNIFORM);
-				UIntVector ot, os2; RealMatrix st;
-				mt.eval(batch, ot); ms.eval(batch, os2);
-				mt.decisionFunction().eval(batch, st);
-				// is the k-neighbourhood unambiguous (no tie with different labels across the k-th boundary)?
-				bool ambiguous = false;
-				if(k < n && bf[k-1].first == bf[k].first){
-					for(std::size_t i = 0; i != n; ++i)
-						if(bf[i].first == bf[k-1].first && bf[i].second != bf[k-1].second) ambiguous = true;
+				if(bad2.empty() && !checkNeighbours(sl, refTrue).empty()) bad2 = "wrong-result:simple:label";
+				if(!bad.empty()){
+					// KH1: every reported (value, label) is the Euclidean distance (of the leaf's first point) and label of some data point
+					bool kh1 = g_perm;
+					for(std::size_t i = 0; kh1 && i != tl.size(); ++i){
+						bool some = false;
+						for(std::size_t j = 0; !some && j != n; ++j)
+							some = g_labels[j] == tl[i].second && tl[i].first == std::to_string(euclid2(g_pts[g_leafFirst[j]], q));
+						kh1 = some;
+					}
+					oracle.push_back(failKey(bad, k1Possible() && checkNeighbours(tl, refDistances(q, true)).empty(), kh1));
 				}
-				// expected decision by definition, from the brute-force neighbours:
-				// pw = 1: weights 1/d (specification), pw = 2: weights 1/d^2 (what S1 produces)
+				if(!bad2.empty()) oracle.push_back(bad2);
+			}else{
+				// expected decision by definition, from brute-force neighbours w.r.t. the reference distances
+				// pw = 1: weights 1/d (specification), pw = 2: weights 1/d^2 (what S1 produced)
 				std::size_t nc = st.size2();
-				auto expect = [&](int pw){
+				auto isAmbiguous = [&](std::vector<std::pair<long long, unsigned> > const& nb){
+					// no tie with different labels across the k-th boundary?
+					if(k < n && nb[k-1].first == nb[k].first)
+						for(std::size_t i = 0; i != n; ++i)
+							if(nb[i].first == nb[k-1].first && nb[i].second != nb[k-1].second) return true;
+					return false;
+				};
+				auto expect = [&](std::vector<std::pair<long long, unsigned> > const& nb, int pw){
 					std::vector<double> v(nc, 0.0); double wsum = 0;
 					for(std::size_t i = 0; i != k; ++i){
 						double w = 1.0;
-						if(weighted){ double d = pw == 1 ? std::sqrt((double)bf[i].first) : (double)bf[i].first; w = d < 1e-100 ? 1e100 : 1.0/d; }
-						v[bf[i].second] += w; wsum += w;
+						if(weighted){ double d = pw == 1 ? std::sqrt((double)nb[i].first) : (double)nb[i].first; w = d < 1e-100 ? 1e100 : 1.0/d; }
+						if(nb[i].second < nc) v[nb[i].second] += w;
+						wsum += w;
 					}
 					std::size_t best = 0;
 					for(std::size_t c = 0; c != nc; ++c){ v[c] /= wsum; if(v[c] > v[best]) best = c; }
 					return (unsigned)best;
 				};
-				unsigned e1 = expect(1), e2 = expect(2);
-				out << "class tree=" << ot(0) << " simple=";
-				if(ambiguous) out << "*"; else out << os2(0);
+				if(ot.size() != m || os2.size() != m || st.size1() != m){ out << "wrong-size"; oracle.push_back("wrong-result:" + g_kind + ":model-result-size"); continue; }
+				bool ambiguous = isAmbiguous(bf);
+				unsigned e1 = expect(bf, 1), e2 = expect(bf, 2);
+				out << "class tree=" << ot(p) << " simple=";
+				if(ambiguous) out << "*"; else out << os2(p);
 				if(!weighted){
 					out << " votes";
-					for(std::size_t c = 0; c != nc; ++c) out << " " << vh::intval(std::floor(st(0,c)*k + 0.5));
+					for(std::size_t c = 0; c != nc; ++c) out << " " << vh::intval(std::floor(st(p,c)*k + 0.5));
 				}
 				if(!ambiguous){
-					if(ot(0) != e1) out << " !oracle " << failKey("prediction");
-					if(os2(0) != e1){
-						if(weighted && os2(0) == e2) out << " !oracle S1:weighted-prediction-differs-between-backends";
-						else out << " !oracle wrong-result:simple:prediction";
+					if(ot(p) != e1){
+						// explained by the listed defect K1?  the decision from the pseudo distances (undecidable if tied there)
+						bool k1 = false;
+						if(k1Possible()){
+							std::vector<long long> refP = refDistances(q, true);
+							std::vector<std::pair<long long, unsigned> > pf(n);
+							for(std::size_t i = 0; i != n; ++i) pf[i] = std::make_pair(refP[i], g_labels[i]);
+							std::stable_sort(pf.begin(), pf.end(), [](std::pair<long long,unsigned> const& a, std::pair<long long,unsigned> const& b){ return a.first < b.first; });
+							k1 = isAmbiguous(pf) || ot(p) == expect(pf, 1);
+						}
+						oracle.push_back(failKey("prediction", k1, true));
+					}
+					if(os2(p) != e1){
+						if(weighted && os2(p) == e2) oracle.push_back("S1:weighted-prediction-differs-between-backends");
+						else oracle.push_back("wrong-result:simple:prediction");
 					}
 				}
 			}
+			}
+			for(std::string const& o: oracle) out << " !oracle " << o;
 		}
 		else out << "bad-op";
 		}catch(std::exception const& e){ out.str(""); out << "exception " << e.what(); }
